@@ -62,6 +62,8 @@ POLY = ["box", "hull", "mesh"]
 
 
 C07_KNOWN = set()      # filled in run(): recorded findings of C07 whose input classes are skipped here
+C09_KNOWN = set()
+ORIG_FORCED_ZERO_ID = "F-O1"   # gjk_distance_original: exit forces d = 0 for a 4-point simplex although the backup solution is far
 
 
 # ============================================================================= colliders: generation
@@ -172,7 +174,7 @@ def scene_ops(scene):
     ops = [dict(fn="gjk_jolt"), dict(fn="gjk_original"), dict(fn="nesterov_distance"),
            dict(fn="nesterov", kw=dict(use_nesterov_acceleration=True)),
            dict(fn="isect_jolt"), dict(fn="isect_libccd"), dict(fn="isect_mpr"), dict(fn="isect_nesterov"),
-           dict(fn="mpr_pen"), dict(fn="mpr_pen", kw=dict(mpr_tolerance=1e-6), tag="mpr_fine"), dict(fn="epa"),
+           dict(fn="mpr_pen"), dict(fn="epa"),
            dict(fn="center", which=1, tag="cen1"), dict(fn="center", which=2, tag="cen2")]
     if is_prim_pair(s1, s2):
         ops += [dict(fn="nesterov_prim_distance"), dict(fn="isect_nesterov_prim"),
@@ -457,6 +459,11 @@ def judge_narrow(R, scene, res, T, member_queue):
                                 fail(f"{base}: {vname}: contact flag {av['contact']} vs {a0['contact']} in a clear {clear} scene",
                                      variant=vname, fn=base)
                         continue
+                if base == "gjk_original" and ORIG_FORCED_ZERO_ID in C09_KNOWN and any(
+                        x.get("d") == 0.0 and x.get("last_simplex") == 4 and x.get("last_d2", 0.0) > (1e-3 * LL) ** 2
+                        for x, LL in ((a0, L[0]), (av, Lv))):
+                    T.hit("skip_gjk_original_forced_zero")
+                    continue
                 T.hit(f"cmp_d:{base}")
                 if abs(dv - mp["s"] * d0) > tol:
                     fail(f"{base}: {vname}: distance {dv!r} but {mp['s']!r} * {d0!r} = {mp['s'] * d0!r} expected (tolerance {tol:.3g})",
@@ -504,26 +511,37 @@ def judge_narrow(R, scene, res, T, member_queue):
                         continue
                 if not (a0["ans"] and av["ans"]):
                     continue
-                if concentric:
-                    T.hit("skip_mpr_concentric")
-                    continue
-                f0 = o0.get("mpr_fine")
-                # the same-object swap repeats the computation of the swap form, "again" that of the original
-                pv = by[1] if pref == "same:" else by[0] if pref == "again:" else by[vi]
+                # C08 bounds the MPR depth from BELOW only (t >= true depth - tol; translating by t u separates the pair):
+                # the portal MPR stops on depends on the frame and the argument order wherever support points tie (flat
+                # faces, lattice placements: seen 0.616 / 0.670 for a true depth of 0.5), so equality of the depths is NOT a
+                # consequence of C08 and is only reported as a statistic.  What C08 does imply for every form is judged:
+                #   (i)  the contact position, mapped back, is a point of BOTH original colliders within 2e-3 L;
+                #   (ii) the depth, scaled back, is not smaller than the EPA depth of the original scene (C07, 1e-6 L)
+                #        minus 2e-3 L, when EPA succeeded on a complete simplex.
                 tol = K_MPR * (mp["s"] * L[0] + Lv)
-                conv = True
-                for coarse, fine, sc in ((a0, f0, mp["s"]), (pv.get("mpr_pen"), pv.get("mpr_fine"), 1.0)):
-                    if fine is None or "exc" in fine or not fine.get("ans") or coarse is None or "exc" in coarse:
-                        conv = False
-                    elif abs(fine["depth"] - coarse["depth"]) * sc > 0.25 * tol:
-                        conv = False
-                if not conv:
-                    T.hit("skip_mpr_not_converged")
+                if abs(av["depth"] - mp["s"] * a0["depth"]) <= tol:
+                    T.hit("mpr_depth_equal")
+                else:
+                    T.hit("mpr_depth_differs_not_pinned_by_C08" + ("_concentric" if concentric else ""))
+                if pref:
                     continue
-                T.hit("cmp_mpr_depth")
-                if abs(av["depth"] - mp["s"] * a0["depth"]) > tol:
-                    fail(f"mpr_penetration: {vname}: depth {av['depth']!r} but {mp['s'] * a0['depth']!r} expected (tolerance {tol:.3g}; "
-                         f"both runs are converged w.r.t. mpr_tolerance)", variant=vname, fn=base)
+                e0 = o0.get("epa", {})
+                if e0.get("success") and (e0.get("n_points") or 0) >= 4 and "mtv" in e0 \
+                        and not ("F21" in C07_KNOWN and inward_wound(e0.get("simplex"))):
+                    ref = float(np.linalg.norm(np.array(e0["mtv"])))
+                    T.hit("cmp_mpr_depth_lower_bound")
+                    if av["depth"] / mp["s"] < ref - K_MPR * Lv / mp["s"] - K_EPA * L[0]:
+                        fail(f"mpr_penetration: {vname}: depth {av['depth']!r} (scaled back {av['depth'] / mp['s']!r}) is smaller than the "
+                             f"penetration depth {ref!r} of the original scene (EPA) minus 2e-3 L", variant=vname, fn=base)
+                        continue
+                if concentric:
+                    T.hit("skip_mpr_pos_concentric")       # C08 candidate finding F20: position outside for coinciding centres
+                elif av.get("pos") is not None:
+                    pos = np.array(av["pos"], float)
+                    for nm, spec in (("first", s1), ("second", s2)):
+                        member_queue.append((scene, f"mpr_penetration: {vname}: contact position, mapped back, is not within 2e-3*L of the "
+                                                    f"{nm} collider", spec, vinv(mp, pos).tolist(), (K_MPR * Lv / mp["s"]) * 1.01 + 1e-9 * L[0],
+                                             dict(variant=vname, fn=base)))
             # ------------------------------------------------ EPA
             elif base == "epa":
                 if "mtv" not in a0 or "mtv" not in av:
@@ -733,6 +751,8 @@ def run(tier, seed, replay=None):
     R = cm.Run(PID, "proof", tier, seed)
     C07_KNOWN.clear()
     C07_KNOWN.update(foreign_known("C07"))
+    C09_KNOWN.clear()
+    C09_KNOWN.update(foreign_known("C09"))
     R.cov["rule"] = (
         "scene = ordered pair of colliders (10 kinds, optional Margin; streams of harness/narrow.gen_pair: random, lattice incl. "
         "identical objects, wide, constructed gap / penetration; plus overlapping polytopes and Nesterov primitives) or a call of one "
@@ -748,8 +768,9 @@ def run(tier, seed, replay=None):
         "universality over scenes and motions comes from generation",
         "boolean answers are compared only in clear scenes: reported distance > 3e-3 L, or a ball of radius 3e-3 L inside both colliders "
         "found by the harness' own closed-form inner-radius oracle",
-        "MPR depth is compared only when the coarse (default) and fine (mpr_tolerance=1e-6) runs of both forms agree to a quarter of the "
-        "tolerance (C08 bounds the depth from one side only; an unconverged portal near a crease is not an asymmetry)",
+        "MPR: C08 bounds the depth from below only, so equality of MPR depths across the forms is reported as a statistic; judged are "
+        "the intersection flag (clear scenes), the contact position (mapped back: a point of both original colliders within 2e-3 L, "
+        "in_shape_tol) and depth >= EPA depth of the original scene - 2e-3 L",
         "harness/narrow.py transform_spec / primlib.rigid build the transformed scene in floating point: the moved shape is the exact "
         "shape of the rounded pose (orthonormal to ~1e-16)",
     ]
